@@ -882,6 +882,9 @@ class XPathToken(Token[ta.XPathTokenType]):
             return value  # a type without a constructor function (xs:anyAtomicType): no cast
 
         def cast_value(v: Any) -> Any:
+            if isinstance(v, UntypedAtomic) and type_name in ('QName', 'NOTATION'):
+                msg = "an xs:untypedAtomic value cannot be converted to the namespace-sensitive type xs:{}"
+                raise self.error('XPTY0117', msg.format(type_name))
             try:
                 if isinstance(v, UntypedAtomic):
                     return token.cast(v)
